@@ -85,9 +85,25 @@ func (v *objectValidator) feed(jsonLexeme lexeme.LexEvent) ([]validator, bool) {
 			panic(errors.Format(errors.ErrRequiredKeyNotFound, v.requiredKeysString()))
 		}
 		return nil, true
+
+	case lexeme.LiteralBegin:
+		if isNullable(v.node_) { // the null which `nullable: true` admits instead of the object
+			return nil, false
+		}
+
+	case lexeme.LiteralEnd:
+		if isNullable(v.node_) && jsonLexeme.Value().String() == "null" {
+			return nil, true
+		}
 	}
 
 	panic(errors.ErrUnexpectedLexInObjectValidator)
+}
+
+// isNullable reports whether the node carries `nullable: true`.
+func isNullable(node schema.Node) bool {
+	c, ok := node.Constraint(constraint.NullableConstraintType).(constraint.BoolKeeper)
+	return ok && c.Bool()
 }
 
 func (v *objectValidator) feedObjectKeyEnd(jsonLexeme lexeme.LexEvent) {
